@@ -85,6 +85,47 @@ fn b128(a: u64, out: &mut Vec<u8>) {
     out.extend(tmp);
 }
 
+// OIDs the library *may* refuse (text parser limited to second arc <= 39) but, if it encodes them, must encode per
+// X.690 8.19.4 and decode back: first arc 2 with a second arc >= 40; plus real-world prefixes and their textual
+// neighbours (1.3.6.1.2.1 -> 1.3.6.1.2.10 ...), which only differ from the usual random OIDs in their *text*.
+fn gen_oid_wide(rng: &mut Rng) -> (String, Vec<u8>, bool) {
+    const PREFIXES: [&[u32]; 8] = [&[1, 3, 6, 1, 2, 1], &[1, 3, 6, 1, 4, 1], &[1, 3, 6, 1, 6, 3], &[1, 0, 8802, 1, 1, 2],
+        &[1, 2, 840, 10006, 300, 43], &[2, 16, 840, 1, 113883], &[0, 9, 2342, 19200300], &[1, 3, 111, 2, 802, 1]];
+    const TAILS: [u32; 10] = [1, 10, 11, 12, 19, 100, 127, 128, 16383, 16384];
+    let mut arcs: Vec<u32>;
+    let mut must = true;
+    if rng.below(2) == 0 {
+        arcs = PREFIXES[rng.below(8) as usize].to_vec();
+        if rng.below(2) == 0 {
+            // textual neighbour of the prefix: its last arc gets more digits
+            let l = arcs.len() - 1;
+            arcs[l] = TAILS[rng.below(10) as usize];
+        }
+        for _ in 0..rng.below(5) {
+            arcs.push(gen_arc(rng));
+        }
+    } else {
+        let a1 = match rng.below(4) {
+            0 => 40 + rng.below(8) as u32,
+            1 => 48 + rng.below(128) as u32,
+            2 => [175u32, 176, 999, 16303, 16304, 2097071, 2097072, 4294967215][rng.below(8) as usize],
+            _ => gen_arc(rng).min(4294967215),
+        };
+        must = a1 < 40;
+        arcs = vec![2, a1];
+        for _ in 0..rng.below(6) {
+            arcs.push(gen_arc(rng));
+        }
+    }
+    let text = arcs.iter().map(|a| a.to_string()).collect::<Vec<_>>().join(".");
+    let mut content = Vec::new();
+    b128(arcs[0] as u64 * 40 + arcs[1] as u64, &mut content);
+    for a in &arcs[2..] {
+        b128(*a as u64, &mut content);
+    }
+    (text, content, must)
+}
+
 fn gen_oid(rng: &mut Rng, max_arcs: u64) -> (String, Vec<u8>) {
     let n = 2 + rng.below(max_arcs - 1);
     let a0 = rng.below(3);
@@ -185,7 +226,17 @@ fn main() {
         "oids" => {
             for _ in 0..n {
                 o.cases += 1;
-                let (text, content) = gen_oid(&mut rng, 40);
+                let (text, content, must) = if rng.below(4) == 0 {
+                    gen_oid_wide(&mut rng)
+                } else {
+                    let (t, c) = gen_oid(&mut rng, 40);
+                    (t, c, true)
+                };
+                if !must && SnmpOid::try_from(text.as_str()).is_err() {
+                    // outside what the library can encode: not judged
+                    o.classes.insert("oid:refused-2.x>39".into());
+                    continue;
+                }
                 let r = guarded(|| -> Result<(), String> {
                     let oid = SnmpOid::try_from(text.as_str()).map_err(|e| format!("parse {:?}", e))?;
                     let raw: Vec<u8> = (&oid).into();
